@@ -24,6 +24,34 @@ class EvalError(Exception):
     pass
 
 
+# what a failing evaluation raises: the property speaks of evaluations that raise, whatever the exception class (a TimeoutError of
+# the user's function is not a time-out of the executor; on Python >= 3.11 concurrent.futures.TimeoutError IS the builtin one)
+class EvalTimeoutError(EvalError, TimeoutError):
+    pass
+
+
+class EvalValueError(EvalError, ValueError):
+    pass
+
+
+class EvalKeyError(EvalError, KeyError):
+    pass
+
+
+class EvalOSError(EvalError, OSError):
+    pass
+
+
+EXC = {"eval": EvalError, "timeout": EvalTimeoutError, "plain_timeout": TimeoutError, "value": EvalValueError, "key": EvalKeyError,
+       "os": EvalOSError}
+_exc_cls = EvalError
+
+
+def set_exc(name):
+    global _exc_cls
+    _exc_cls = EXC[name or "eval"]
+
+
 class NoPoints(BaseException):
     """the learner gave no points and nothing is in flight while the goal is unmet: the real
     BlockingRunner would spin and AsyncRunner would fail in asyncio.wait([]); outside the properties"""
@@ -213,7 +241,7 @@ def complete(fut, label, outcome):
     if outcome == "ok":
         fut.set_result(value_of(label))
     else:
-        fut.set_exception(EvalError(f"boom at label {label}"))
+        fut.set_exception(_exc_cls(f"boom at label {label}"))
 
 
 def tok_done(items):
@@ -343,7 +371,7 @@ def run_async(make_learner, cfg, rng, ask_hook=None, coroutine=False, sched=None
                     if o == "ok":
                         f.set_result(value_of(lab))
                     else:
-                        f.set_exception(EvalError(f"boom at label {lab}"))
+                        f.set_exception(_exc_cls(f"boom at label {lab}"))
                 else:
                     complete(ex.futs[i], lab, o)
                 items.append((i, lab, o))
